@@ -286,7 +286,13 @@ func areUnknownAttributesAdded(content []byte) []string {
 	// Ignoring error because we already successfully unmarshalled before this
 	// point
 	_ = json.Unmarshal(content, &targetArtifactMap)
-	descriptor := targetArtifactMap["targetArtifact"].(map[string]interface{})
+	descriptor, ok := targetArtifactMap["targetArtifact"].(map[string]interface{})
+	if !ok {
+		// the target artifact is not a JSON object under its exact key (e.g. the
+		// key is spelled differently or duplicated with a null value), so none
+		// of the top level attributes is an expected one
+		return getKeySet(targetArtifactMap)
+	}
 
 	// Explicitly remove expected keys to check if any are left over
 	delete(descriptor, "mediaType")
